@@ -283,6 +283,11 @@ func (f *family) doRollupWork(sourceFamily Family, rollup Rollup, sourceFiles []
 		if fm, ok := v.GetFile(0, fileNumber); ok {
 			inputFiles = append(inputFiles, fm)
 			logs = append(logs, version.CreateNewReferenceFile(sourceStore, sourceFamilyID, fileNumber))
+		} else if reader, err0 := snapshot.GetReader(fileNumber); err0 == nil && reader != nil {
+			// source file was moved/merged to upper level by a source compaction,
+			// deleteObsoleteFiles keeps the file on disk while its rollup mark is alive, so it still can be rolled up.
+			inputFiles = append(inputFiles, version.NewFileMeta(fileNumber, 0, 0, 0))
+			logs = append(logs, version.CreateNewReferenceFile(sourceStore, sourceFamilyID, fileNumber))
 		}
 	}
 	compaction := version.NewCompaction(f.ID(), 0, inputFiles, nil)
